@@ -416,7 +416,7 @@ func (s *Scheduler) run(emitter Emitter, freq time.Duration) {
 			nextEl *list.Element
 			next   *ScheduledJob
 		)
-		if ready.Len() > 0 {
+		if ready.Len() > 0 && ongoing < s.concurrency {
 			nextEl = ready.Front()
 			next = nextEl.Value.(*ScheduledJob)
 		} else {
